@@ -123,6 +123,15 @@ Proof.
   intros Hr Hc Hc4. exact (reader_domain LT RT AT all_layouts_ok parse_fills_checked reader_kinds_checked clk Hc Hc4 text f Hr).
 Qed.
 
+Theorem c02_reader_domain_decoded (dec : bytes -> bytes) raw f clk :
+  read_text_valid LT RT AT (dec raw) = Some (f, false) -> wf_utf8 clk = true -> rune_count clk = 4 ->
+  let out := write_file_padded LT (stamp clk f) in
+  Forall line_ok94 out /\ length out mod 10 = 0
+  /\ (exists k, k < 10 /\ out = write_file LT (stamp clk f) ++ repeat nines k) /\ grammar_ok out = true.
+Proof.
+  intros H Hc Hc4. destruct (c02_reader_domain (dec raw) f clk H Hc Hc4) as (A & B & C & D & _). cbv zeta. auto.
+Qed.
+
 Theorem c02_reader_domain_timed text f :
   read_text_valid LT RT AT text = Some (f, false) -> all_file has_time f = true ->
   let out := write_file_padded LT f in
